@@ -279,6 +279,9 @@ func c01Run(c *ev.Ctx) {
 			// a refusal is in scope only where the combination is documented as supported
 			if d.Family == "ref" || d.Family == "array" || d.Family == "enum" || d.Family == "opaque" {
 				c.Count("refused:"+d.Family, 1)
+			} else if strings.Contains(res.Err, "at most 65535") {
+				// the single-node chunk index (listed finding): its own key
+				c.Violation("write-refused:more-than-65535-chunks", witness(d, res.Err))
 			} else {
 				c.Violation(key("write-refused"), witness(d, res.Err))
 			}
